@@ -36,9 +36,9 @@ PER_CLASS_CI = ["tpr_ci", "tnr_ci", "fpr_ci", "fnr_ci", "tar_ci", "frr_ci", "trr
 def bounds(tier):
     if tier == "quick":
         return {"seq_len": {"2": 4, "3": 3}, "matrix_entries": [0, 1, 2], "N": [2, 3], "N3_stride": 7,
-                "leading_shapes": [[], [2], [2, 3], [2, 1, 2]], "weights": ["none", "ints", "floats", "tiny"]}
+                "leading_shapes": [[], [2], [2, 3], [2, 1, 2]], "weights": ["none", "ints", "floats", "tiny", "u8"]}
     return {"seq_len": {"2": 5, "3": 4}, "matrix_entries": [0, 1, 2], "N": [2, 3, 4], "N3_stride": 1,
-            "leading_shapes": [[], [2], [2, 2], [0], [1, 3], [2, 3], [3, 1, 2]], "weights": ["none", "ints", "floats", "tiny"]}
+            "leading_shapes": [[], [2], [2, 2], [0], [1, 3], [2, 3], [3, 1, 2]], "weights": ["none", "ints", "floats", "tiny", "u8"]}
 
 
 CLASS_SETS = [[0, 1], [0, 1, 2], ["b", "a", "c"]]
@@ -81,6 +81,8 @@ def _weights(kind, n):
         return None
     if kind == "ints":
         return [1 + (i * 2) % 3 for i in range(n)]
+    if kind == "u8":  # unsigned 8-bit weights whose totals leave the dtype (known finding D19)
+        return np.array([100 + (i * 50) % 150 for i in range(n)], dtype=np.uint8)
     if kind == "tiny":  # importance weights of tiny magnitude (dyadic, so sums stay exact)
         return [(1 + (i % 3)) * 2.0 ** -40 for i in range(n)]
     return [0.5 + 0.25 * (i % 4) for i in range(n)]
@@ -90,7 +92,7 @@ def ref_matrix(classes, labels, preds, weights):
     N = len(classes)
     m = [[F(0)] * N for _ in range(N)]
     for i, (l_, p_) in enumerate(zip(labels, preds)):
-        w = F(1) if weights is None else F(weights[i])
+        w = F(1) if weights is None else F(weights[i].item() if isinstance(weights[i], np.generic) else weights[i])
         m[classes.index(l_)][classes.index(p_)] += w
     return m
 
@@ -232,6 +234,8 @@ def run(item, ctx, tier, seed):
                     order = [classes[i] for i in perm]
                     mp = [[m[a][c] for c in perm] for a in perm]
                     case = {"labels": labels, "predictions": preds, "weights": w, "classes": order}
+                    if wk == "u8":
+                        case["weights_dtype"] = "uint8"
                     ctx.state()
                     if asym:
                         ctx.nontrivial()
@@ -404,3 +408,17 @@ def run(item, ctx, tier, seed):
                             break
     ctx.sample({"kind": "matrix", "N": N, "first": _mat_from_index(item["idxs"][0], N, ents), "count": len(item["idxs"])})
     return None
+
+
+def _m_u8_weights(rec):
+    """D19: the matrix has the dtype of the weights (documented), so totals of uint8 weights wrap modulo 256."""
+    if rec["clause"] != "entry-is-total-weight" or rec["case"].get("weights_dtype") != "uint8":
+        return False
+    try:
+        obs, exp = np.asarray(rec["observed"], dtype=float), np.asarray(rec["expected"], dtype=float)
+        return obs.shape == exp.shape and bool(np.all((exp - obs) % 256 == 0))
+    except Exception:
+        return False
+
+
+MATCHERS = {"c05_uint8_weights_wrap": _m_u8_weights}
